@@ -326,6 +326,43 @@ def dual_listed(root):
     return man & dat
 
 
+def short_hash(argv, desc):
+    import hashlib
+    return hashlib.sha1(repr((argv[:2], desc['kind'],
+                              desc.get('odd'))).encode()).hexdigest()
+
+
+def run_program(argv, root, classes):
+    """Run bin/gemato as a program (read-only commands only)."""
+    import subprocess
+    import sys
+    prog = os.path.join(harness.REPO, 'bin', 'gemato')
+    p = subprocess.run([sys.executable, prog] + argv, capture_output=True,
+                       text=True, env=dict(os.environ,
+                                           PYTHONPATH=harness.REPO))
+    classes.append('program-run')
+    if p.returncode in (0, 1, 2):
+        if p.returncode == 1 and not p.stderr.strip():
+            return violation(
+                f'bin/gemato {argv[0]}: exit status 1 without any message',
+                sig='program-silent-failure', classes=classes)
+        return None
+    if 'Traceback' in p.stderr:
+        last = p.stderr.strip().splitlines()[-1]
+        typ = last.split(':')[0].strip()
+        if typ in ('OSError', 'NotADirectoryError', 'FileNotFoundError',
+                   'PermissionError', 'IsADirectoryError', 'OSError',
+                   'FileExistsError') or 'Errno' in last:
+            return None
+        return violation(
+            f'bin/gemato {" ".join(argv[:2])} ...: exit status '
+            f'{p.returncode} with a traceback: {last}',
+            sig='program-traceback:' + typ, classes=classes)
+    return violation(f'bin/gemato exit status {p.returncode}: '
+                     f'{p.stderr[-300:]}', sig='program-exit-status',
+                     classes=classes)
+
+
 def genuinely_os(exc, root):
     return (isinstance(exc, OSError) and exc.errno is not None)
 
@@ -377,16 +414,19 @@ def run_case(desc):
             if desc['kind'] == 'repo' and ci == 1:
                 repogen.apply_edits(root, desc['edits'])
             classes.append('cmd:' + c['cmd'])
+            if c['cmd'] == 'verify' and short_hash(argv, desc)[:2] in (
+                    '00', '01', '02', '03'):
+                # a sample also through the real program, for the exit status
+                v = run_program(argv, root, classes)
+                if v is not None:
+                    return v
             dual = dual_listed(root)
-            target_ignored = False
-            if sub:
-                try:
-                    import refscan
-                    ign = refscan.load_all(root).ignores
-                    target_ignored = any(
-                        sub == i or sub.startswith(i + '/') for i in ign)
-                except Exception:
-                    pass
+            ignored_paths = []
+            try:
+                import refscan
+                ignored_paths = refscan.load_all(root).ignores
+            except Exception:
+                pass
             oc, records, out = gem.cli(argv)
             short = ' '.join(a if not a.startswith(root) else
                              '<tree>' + a[len(root):] for a in argv)
@@ -430,8 +470,11 @@ def run_case(desc):
                 names = set(re.findall(r"'([^']*)'", msg))
                 if names and names <= dual:
                     sig += ':path-listed-as-manifest-and-as-file'
-                elif sub and target_ignored:
-                    sig += ':update-of-ignored-directory'
+                elif names and all(
+                        any(c.startswith('.') for c in n.split('/'))
+                        or any(n == i or n.startswith(i + '/')
+                               for i in ignored_paths) for n in names):
+                    sig += ':manifest-in-hidden-or-ignored-directory'
             # input-class predicates of the recorded findings
             if (sig == 'AssertionError:update_entries_for_directory'
                     and profile == 'old-ebuild' and not msg):
